@@ -174,7 +174,9 @@ inline uint64_t gen_for(vp::Rng &r, const RegD &reg) {
 }
 
 // ---- valid tables of the small-scope family (constructed, never filtered)
-struct FamilyOpts { unsigned max_areas = 3, max_size = 12, max_regs = 5; bool allow_fail = true, allow_nowrite = true, allow_ro = true, allow_wo = true; bool only_blockwrite_types = false; };
+struct FamilyOpts { unsigned max_areas = 3, max_size = 12, max_regs = 5; bool allow_fail = true, allow_nowrite = true, allow_ro = true, allow_wo = true; bool only_blockwrite_types = false;
+                    unsigned huge = 0;    // 1 in `huge` tables gets an area of more than 2^16 words with registers behind offset 0x10000 (0: never)
+                    unsigned many = 0; }; // 1 in `many` tables gets 32..70 registers (0: never)
 inline TableD gen_table(vp::Rng &r, const FamilyOpts &o = FamilyOpts()) {
     TableD t;
     t.big = r.chance(1, 2);
@@ -192,10 +194,24 @@ inline TableD gen_table(vp::Rng &r, const FamilyOpts &o = FamilyOpts()) {
         base = a.end() + (uint32_t)r.pick(std::vector<uint64_t>{0, 0, 1, 3});   // adjacency and small gaps
     }
     unsigned budget = (unsigned)r.below(o.max_regs + 1);
+    long huge_area = -1;
+    if (o.many && r.below(o.many) == 0) {
+        // many registers: enlarge the areas so that they fit
+        budget = 32 + (unsigned)r.below(40);
+        uint32_t b = t.areas.front().base;
+        for (auto &a : t.areas) { a.base = b; a.size = 40 + (uint32_t)r.below(60); b = a.end() + (uint32_t)r.pick(std::vector<uint64_t>{0, 0, 1, 3}); }
+    } else if (o.huge && r.below(o.huge) == 0) {
+        huge_area = (long)r.below(t.areas.size());
+        uint32_t b = t.areas.front().base;
+        for (size_t i = 0; i < t.areas.size(); i++) { AreaD &a = t.areas[i]; a.base = b; if ((long)i == huge_area) a.size = 0x10000u + 4u + (uint32_t)r.below(40); b = a.end() + (uint32_t)r.pick(std::vector<uint64_t>{0, 0, 1, 3}); }
+        if (budget < 3) budget = 3;
+    }
     for (size_t ai = 0; ai < t.areas.size() && t.regs.size() < budget; ai++) {
         const AreaD &a = t.areas[ai];
         uint32_t pos = a.base;
+        bool jumped = false;
         while (pos < a.end() && t.regs.size() < budget) {
+            if ((long)ai == huge_area && !jumped && (pos - a.base > 6 || t.regs.size() + 2 >= budget)) { pos = a.base + 0xfffau + (uint32_t)r.below(6); jumped = true; }   // continue behind offset 0x10000
             if (r.chance(1, 4)) { pos += 1 + (uint32_t)r.below(2); continue; }   // gap between registers
             int type = (int)r.below(rm::NTYPES);
             if (o.only_blockwrite_types) type = (int)r.pick(std::vector<uint64_t>{rm::U16, rm::U32, rm::U64, rm::F32, rm::F64, rm::S16, rm::S32, rm::S64});
